@@ -1,5 +1,4 @@
-use super::swift_utils::parse_swift_chars;
-use crate::errors::ParseError;
+use super::field_utils::parse_multiline_text;
 use crate::traits::SwiftField;
 use serde::{Deserialize, Serialize};
 
@@ -30,33 +29,8 @@ impl SwiftField for Field75 {
     where
         Self: Sized,
     {
-        let mut information = Vec::new();
-
-        // Parse up to 6 lines of 35 characters each
-        for line in input.lines() {
-            if information.len() >= 6 {
-                break;
-            }
-
-            if line.len() > 35 {
-                return Err(ParseError::InvalidFormat {
-                    message: format!(
-                        "Field75 line cannot exceed 35 characters, found {}",
-                        line.len()
-                    ),
-                });
-            }
-
-            // Validate SWIFT character set
-            parse_swift_chars(line, "Field75 line")?;
-            information.push(line.to_string());
-        }
-
-        if information.is_empty() {
-            return Err(ParseError::InvalidFormat {
-                message: "Field75 requires at least one line of information".to_string(),
-            });
-        }
+        // 6*35x: every line is kept; more than 6 lines, a blank line or a line over 35 characters is an error
+        let information = parse_multiline_text(input, 6, 35)?;
 
         Ok(Field75 { information })
     }
